@@ -428,16 +428,15 @@ def hTxattrwalk (m : Msg) : M Reply :=
     | .ok _ ss _ =>
       let buf := if (m.str 2).length > 0 then ss.getD 0 [] else (if ss.isEmpty then [0] else joinNul ss)
       if buf.length > maxLen then return rerr EINVAL
-      -- after the D2 `fix:`: the xattr fid gets a File of its own (a clone)
-      match ← call x.file "Walk" [] [] [] with
-      | .err e => return rerr e
-      | .panic => return rerr EIO
-      | .ok _ _ _ =>
-        let h ← newHandle
-        let nr ← newRef { file := h, mode := 0, node := x.node,
-                          x := { op := 2, name := m.str 2, size := buf.length, buf := buf } }
-        insertFid (m.int 1) nr
-        return rmsg 31 (ints [buf.length])
+      -- after the D2 `fix:`s: the xattr fid gets a reference of its own made like a clone walk's
+      -- (own File, registered in the path tree)
+      match ← doWalk ref [] false with
+      | .error e => return rerr e
+      | .ok (_, nr, _, _) =>
+        finally' (do
+          setRef nr fun y => { y with x := { op := 2, name := m.str 2, size := buf.length, buf := buf } }
+          insertFid (m.int 1) nr
+          return rmsg 31 (ints [buf.length])) (decRefU nr)
 
 def hTxattrcreate (m : Msg) : M Reply :=
   -- fid name attr_size flags
